@@ -3,6 +3,7 @@ CONSTANTS
   MaxStr = 1
   MaxRunes = 2
   MaxPeek = 1
+  RuneKinds = {"p"}
   DecMode = "buffered"
   LineMode = "asread"
 SPECIFICATION Spec
